@@ -80,7 +80,14 @@ def worker_main():
         out.write(json.dumps({"start": i}) + "\n")
         out.flush()
         spec = plans.case_spec(check, tier, vseed, i)
-        res = execute(spec, ref_table)
+        try:
+            res = execute(spec, ref_table)
+        except Exception:  # noqa: BLE001 - a bug in the harness/oracles: reported, never a verdict
+            import traceback
+            faulthandler.cancel_dump_traceback_later()
+            out.write(json.dumps({"i": i, "digest": "-", "nviol": 0, "harness_exception": traceback.format_exc()[-1500:]}) + "\n")
+            out.flush()
+            continue
         faulthandler.cancel_dump_traceback_later()
         mine = [v for v in res["violations"] if v["property"] == check]
         agg.add(i, spec, res, mine)
@@ -178,11 +185,7 @@ class Aggregate:
 # ============================================================================
 # coordinator
 # ============================================================================
-def run_batch(check, tier, vseed, b, indices, ref_table, timeout, want_logs=False):
-    job = {"check": check, "tier": tier, "seed": vseed, "indices": indices, "ref_table": ref_table,
-           "want_logs": want_logs, "run_timeout": max(120, timeout // 2)}
-    hs = batch_hashseed(vseed, b)
-    t0 = time.time()
+def _run_worker(job, hs, timeout):
     try:
         p = subprocess.run([PY, os.path.join(HERE, "run.py"), "--worker"], input=json.dumps(job), env=child_env(hs),
                            capture_output=True, text=True, timeout=timeout, cwd=HERE)
@@ -197,8 +200,44 @@ def run_batch(check, tier, vseed, b, indices, ref_table, timeout, want_logs=Fals
             lines.append(json.loads(l))
         except ValueError:
             pass
-    return {"b": b, "hashseed": hs, "rc": rc, "lines": lines, "stderr": err[-4000:], "wall": time.time() - t0,
-            "indices": indices}
+    return lines, err, rc
+
+
+def run_batch(check, tier, vseed, b, indices, ref_table, timeout, want_logs=False):
+    """One worker interpreter for one batch.  A worker that dies (wall-clock
+    backstop, crash of the interpreter) is classified, never ignored: the case
+    it was running is retried alone; if it dies again it is a reproducible
+    `dead case`, and the rest of the batch is run in a fresh worker."""
+    hs = batch_hashseed(vseed, b)
+    t0 = time.time()
+    todo = list(indices)
+    all_lines, dead, errs = [], [], []
+    rc = 0
+    for _attempt in range(4):
+        if not todo:
+            break
+        job = {"check": check, "tier": tier, "seed": vseed, "indices": todo, "ref_table": ref_table,
+               "want_logs": want_logs, "run_timeout": 300}
+        lines, err, rc = _run_worker(job, hs, timeout)
+        all_lines += lines
+        if any("summary" in l for l in lines):
+            todo = []
+            break
+        errs.append(err[-1500:])
+        started = [l["start"] for l in lines if "start" in l]
+        finished = {l["i"] for l in lines if "i" in l}
+        culprit = started[-1] if started and started[-1] not in finished else None
+        if culprit is None:
+            break  # died outside any case: harness problem
+        job1 = dict(job, indices=[culprit], run_timeout=180)
+        l1, e1, rc1 = _run_worker(job1, hs, 400)
+        if any("summary" in l for l in l1):
+            all_lines += l1   # a one-off (machine load): the retry completed
+        else:
+            dead.append({"case": culprit, "stderr": (e1 or err)[-1500:], "rc": str(rc1)})
+        todo = [i for i in todo if i not in finished and i != culprit]
+    return {"b": b, "hashseed": hs, "rc": rc, "lines": all_lines, "stderr": "\n".join(errs)[-4000:],
+            "wall": time.time() - t0, "indices": indices, "dead": dead, "unfinished": todo}
 
 
 def load_known():
@@ -253,6 +292,7 @@ def coordinator(check, tier, runs, budget_s, workers, vseed):
             harness_errors.append("reference table: %s" % e)
     agg = Aggregate()
     violations = []     # (violation, spec, hashseed)
+    dead_cases = []     # cases whose worker died twice (reproducibly)
     hashseeds = set()
     seams_seen = {}
     n_batches = (total + B - 1) // B
@@ -287,11 +327,15 @@ def coordinator(check, tier, runs, budget_s, workers, vseed):
                         got_summary = True
                     elif "i" in l:
                         done_runs += 1
+                        if l.get("harness_exception"):
+                            harness_errors.append("case %d: exception in the harness: %s" % (l["i"], l["harness_exception"][-700:]))
                         for v in l.get("violations", []):
                             violations.append((v, l["spec"], r["hashseed"]))
-                if not got_summary:
-                    harness_errors.append("batch %d (hashseed %d) rc=%s last started case=%s stderr tail: %s" % (
-                        r["b"], r["hashseed"], r["rc"], last_start, r["stderr"][-1500:]))
+                for dc in r.get("dead", []):
+                    dead_cases.append((dc, r["hashseed"]))
+                if not got_summary or r.get("unfinished"):
+                    harness_errors.append("batch %d (hashseed %d) rc=%s last started case=%s unfinished=%s stderr tail: %s" % (
+                        r["b"], r["hashseed"], r["rc"], last_start, r.get("unfinished"), r["stderr"][-1500:]))
             if len(violations) > 200:
                 break
             submit()
@@ -312,6 +356,17 @@ def coordinator(check, tier, runs, budget_s, workers, vseed):
         v, spec, hs = items[0]
         path = write_replay(check, v, spec, hs, shrink=True)
         replay_paths.append((v, path, len(items)))
+    for dc, hs in dead_cases[:3]:
+        spec = plans.case_spec(check, tier, vseed, dc["case"])
+        if check == "C03":
+            # bounded termination is part of C03: a case that kills its worker twice is a hang
+            v = {"property": "C03", "oracle": "terminates", "detail": "worker died twice on this case (wall-clock backstop): %s" % dc["stderr"][-600:],
+                 "op_index": -1, "outcome": "hang", "sig": "C03/terminates/hang/-/-"}
+            path = write_replay(check, v, spec, hs, shrink=False)
+            replay_paths.append((v, path, 1))
+            by_sig.setdefault(v["sig"], []).append((v, spec, hs))
+        else:
+            harness_errors.append("case %d killed its worker twice (rc=%s): %s" % (dc["case"], dc["rc"], dc["stderr"][-800:]))
     # ---- evidence -------------------------------------------------------------
     write_evidence(check, tier, vseed, agg, wall, len(by_sig), sorted(hashseeds), seams_seen, known_seen,
                    harness_errors, done_runs)
@@ -335,6 +390,13 @@ def coordinator(check, tier, runs, budget_s, workers, vseed):
 
 
 def write_replay(check, v, spec, hs, shrink=True):
+    if not shrink:
+        os.makedirs(os.path.join(HERE, "replays"), exist_ok=True)
+        path = os.path.join(HERE, "replays", "%s-%d.json" % (check, spec["seed"]))
+        with open(path, "w") as f:
+            json.dump({"property": check, "hashseed": hs, "expect_sig": v["sig"], "violation": v, "spec": spec,
+                       "minimised": False}, f, indent=1, default=str)
+        return path
     os.makedirs(os.path.join(HERE, "replays"), exist_ok=True)
     if v.get("narrow") and 0 <= v.get("op_index", -1) < len(spec["ops"]):
         # a sweep op enumerates many sub-cases: narrow it to the failing one
@@ -399,7 +461,9 @@ def replay_main(check, path):
         env = child_env(hs)
         return subprocess.run([PY, os.path.join(HERE, "run.py"), check, "--replay", path], env=env, cwd=HERE).returncode
     spec = d["spec"]
+    faulthandler.dump_traceback_later(600, exit=True)   # a hanging replay ends non-zero, never 0
     res = _exec_spec(spec)
+    faulthandler.cancel_dump_traceback_later()
     mine = [v for v in res["violations"] if v["property"] == check]
     known = load_known()
     rc = 0
